@@ -291,7 +291,11 @@ Print Assumptions decode_encode_routes_labeled.
    entries into consecutive chunks and from every frame the RFC reader of the family recovers the
    attributes, the next hop and exactly the entries of the chunk -- the value itself (a Flowspec
    prefix component keeps its significant octets).  This covers the length prefix rule of RFC 8955
-   4.1 (one octet below 240, two octets 0xfnnn from 240 to 4095) and the operator value widths. *)
+   4.1 (one octet below 240, two octets 0xfnnn from 240 to 4095) and the operator value widths.
+   (One reader clause is not the RFC's: an IPv6 Flowspec prefix component with a non-zero offset
+   is read as the code writes it, ceil(length / 8) octets from bit 0, where RFC 8956 3.1 has the
+   length - offset bits after the offset; the python oracle judges by the RFC and reports the
+   difference on every run as the open finding C04-fs6-prefix-offset.) *)
 Theorem decode_encode_routes_structured :
   forall (p : profile) (c : codec) (f : N) (k : skind) (nh : option (list N)) (attrs : list attr)
          (es : list pnlri) (frames : list (list N)),
